@@ -45,6 +45,7 @@ structure RW where
   h : Heap
   dsp : List (Nat × Nat) := []     -- coap_dispatch calls: (serial of the coap_pdu_t, ledger events before the call)
   dcs : List Bool := []            -- does the next coap_dispatch disconnect the session?  exhausted = no
+  msgs : List Msg := []            -- GHOST: the parsed messages handed to coap_dispatch, in order (one per `dsp` record)
   deriving Repr, DecidableEq
 
 def dcHead : List Bool → Bool
@@ -71,13 +72,14 @@ def sessionFree (s : RSess) (w : RW) : RW :=
                 | none => w.h }
 
 /-- the complete PDU `p`, already DETACHED from the session `s`: `if (parse…) coap_dispatch(ctx, session, pdu);
-coap_delete_pdu(pdu);` -/
-def dispatchDelete (parsed : Bool) (p : OPdu) (s : RSess) (w : RW) : RSess × RW :=
-  if parsed then
-    let w1 : RW := { w with dsp := w.dsp ++ [(p.id, w.h.trace.length)], dcs := w.dcs.tail }
+coap_delete_pdu(pdu);`  (`parsed` = the message the PDU parses to, `none` = it does not parse) -/
+def dispatchDelete (parsed : Option Msg) (p : OPdu) (s : RSess) (w : RW) : RSess × RW :=
+  match parsed with
+  | some m =>
+    let w1 : RW := { w with dsp := w.dsp ++ [(p.id, w.h.trace.length)], dcs := w.dcs.tail, msgs := w.msgs ++ [m] }
     let r := if dcHead w.dcs then disconnected s w1 else (s, w1)
     (r.1, { r.2 with h := pduDelete p r.2.h })
-  else (s, { w with h := pduDelete p w.h })
+  | none => (s, { w with h := pduDelete p w.h })
 
 /-- how the `while (bytes_read > 0)` loop ends: all bytes consumed, `bytes_read = -1; break;`, or an access outside
 `read_header` (cannot happen: C05's theorems; kept so that it would be visible, never silently accepted) -/
@@ -109,7 +111,7 @@ def headerDone (maxRcv : Nat) (s : RSess) (w : RW) (rh : Bytes) (hdrSize hl : Na
       let r := growTo p0 size h1
       if r.1 = 0 then (.fail, { s with ppdu := some ⟨r.2.1, 0, 0, []⟩ }, { w with h := r.2.2 }) else
       if size = 0 then
-        let d := dispatchDelete (Stream.parsePdu hdrSize (rh.take hl)).toOption.isSome r.2.1
+        let d := dispatchDelete (Stream.parsePdu hdrSize (rh.take hl)).toOption r.2.1
                    { s with rh := [], partialRead := 0, ppdu := none } { w with h := r.2.2 }
         (.ok, d.1, d.2)
       else
@@ -128,7 +130,7 @@ def loop (maxRcv : Nat) : (fuel : Nat) → RSess → RW → Bytes → Exit × RS
       let buf := p.buf.take s.partialRead ++ bs.take n
       if n = len then
         -- detached first: session->partial_pdu = NULL; partial_read = 0
-        let r := dispatchDelete (Stream.parsePdu p.hdrSize buf).toOption.isSome p.pdu
+        let r := dispatchDelete (Stream.parsePdu p.hdrSize buf).toOption p.pdu
                    { s with rh := [], partialRead := 0, ppdu := none } w
         loop maxRcv fuel r.1 r.2 (bs.drop n)
       else
